@@ -6,7 +6,7 @@ IMPORTS = "Base Json Canon Sync SyncObs CorrC13"
 CASE_TYPE = "case_C13"
 MISMATCHES = "mismatches_C13"
 VIOLATIONS = "violations_C13"
-KNOWN = "known_C13"
+KNOWN = None
 SHARD = 40
 RULE = ("seeded random pairs of real projects over the universe of the property text (0-4 jobs each, overlapping / disjoint "
         "ids, files identical / differing / one-sided with explicit mtimes, nested and empty directories, file-vs-directory "
